@@ -239,7 +239,7 @@ CLAIMED = {
         "parameters are bound / the body is visited, and close it again. Bounded stand-in (not proved): 12 binding forms x scope depths 0..2 (global: 1..3) x "
         "probe positions + del / parameter / class-body / session-name cases through the real Execer.parse, decision on a probe line `X -l` against Python's "
         "scoping rules.",
-   note="Two genuine defects repaired (fix: 2827a8d: a walrus inside an expression statement was not recorded; c760ec2: `import a.b` recorded "a.b" instead of a). Unverified: is_in_scope / the name gathering "
+   note="Two genuine defects repaired (fix: 2827a8d: a walrus inside an expression statement was not recorded; c760ec2: `import a.b` recorded the dotted path instead of a). Unverified: is_in_scope / the name gathering "
         "helpers (gather_names, leftmostname), visit_Assign / visit_For / visit_With (their name gathering goes through gather_names / leftmostname - bounded only), the with-body hypothesis on "
         "generic_visit (stack depth preserved), ctxupdate's generator argument in visit_FunctionDef (abstracted: assumed to touch the innermost scope only, "
         "which is ctxupdate's own verified contract), the three-phase parse and 'decision before anything runs' (Execer.parse / compile / exec), "
